@@ -7,6 +7,7 @@ pub mod c06;
 pub mod c07;
 pub mod c08;
 pub mod c02;
+pub mod c18;
 pub mod c09;
 pub mod c09a;
 pub mod c10;
@@ -45,6 +46,7 @@ pub fn run_property<C: Codec>(id: &str, tier: Tier) -> i32 {
         "C10" => c10::run::<C>(tier),
         "C09" => c09::run::<C>(tier),
         "C02" => c02::run::<C>(tier),
+        "C18" => c18::run::<C>(tier),
         _ => {
             println!("INCONCLUSIVE unknown property {id}");
             2
@@ -88,6 +90,7 @@ pub fn replay<C: Codec>(text: &str) -> i32 {
         "C10" => c10::replay::<C>(text, &known),
         "C09" => c09::replay::<C>(text, &known),
         "C02" => c02::replay::<C>(text, &known),
+        "C18" => c18::replay::<C>(text, &known),
         _ => None,
     };
     match r {
